@@ -214,9 +214,69 @@ func genCase(t *rapid.T) Case {
 			}
 		}
 	}
+	blocks = g.codePieces(blocks)
 	c := Case{Mode: mode, Feats: feats, Blocks: blocks, O: g.o, Via: via, Hist: hist}
 	g.wide(&c)
 	return c
+}
+
+// codePieces: in Word a piece of code is one CodeBlock paragraph per line. Half of the CodeBlock paragraphs of a case get
+// 1-4 followers: further lines (CodeBlock paragraphs with text, without text, with blanks only, with indentation), and
+// between them paragraphs of other kinds without visible text (empty and page break paragraphs, a blank-only run, a
+// heading / quote / item without text), which are empty lines of the code when another line follows.
+func (g *gctx) codePieces(blocks []Block) []Block {
+	t := g.t
+	var out []Block
+	for _, b := range blocks {
+		out = append(out, b)
+		if b.K != "code" || rapid.IntRange(0, 1).Draw(t, "piece") == 0 {
+			continue
+		}
+		for i, n := 0, rapid.IntRange(1, 4).Draw(t, "piecen"); i < n; i++ {
+			switch rapid.IntRange(0, 9).Draw(t, "piecek") {
+			case 0:
+				out = append(out, Block{K: "empty", Brk: rapid.IntRange(0, 3).Draw(t, "piecebrk") == 0})
+			case 1:
+				out = append(out, rapid.SampledFrom([]Block{{K: "p", Runs: []Run{{T: ""}}}, {K: "p", Runs: []Run{{T: " ", B: true}}}, {K: "q", T: ""}, {K: "h", Level: 2, T: " "},
+					{K: "li", T: ""}, {K: "p", Runs: []Run{{T: "\t"}, {T: ""}}}}).Draw(t, "piecegap"))
+			case 2:
+				out = append(out, Block{K: "code", T: rapid.SampledFrom([]string{"", "", " ", "\t", "    "}).Draw(t, "pieceblank")})
+			case 3:
+				out = append(out, Block{K: "code", T: rapid.SampledFrom([]string{"    ", "\t", "  ", "\t\t"}).Draw(t, "pieceind") + words(t, "piecew", 1, 3)})
+			default:
+				out = append(out, g.block1("code"))
+			}
+		}
+	}
+	return out
+}
+
+// multiLine: a code text of 2-4 lines (line feed or CR LF), among them empty, blank-only and indented ones.
+func (g *gctx) multiLine() string {
+	t := g.t
+	n := rapid.IntRange(2, 4).Draw(t, "mln")
+	ls := make([]string, n)
+	for i := range ls {
+		switch rapid.IntRange(0, 7).Draw(t, "mlk") {
+		case 0:
+			ls[i] = ""
+		case 1:
+			ls[i] = rapid.SampledFrom([]string{" ", "\t", "  "}).Draw(t, "mlb")
+		case 2:
+			ls[i] = rapid.SampledFrom([]string{"  ", "\t", "    "}).Draw(t, "mli") + words(t, "mlw", 1, 2)
+		case 3:
+			if g.f["md"] {
+				ls[i] = rapid.SampledFrom(fenceLines).Draw(t, "mlf")
+				break
+			}
+			fallthrough
+		case 4:
+			ls[i] = rapid.SampledFrom(codeLines).Draw(t, "mlc")
+		default:
+			ls[i] = words(t, "mlw", 1, 3)
+		}
+	}
+	return strings.Join(ls, rapid.SampledFrom([]string{"\n", "\n", "\r\n", "\n"}).Draw(t, "mleol"))
 }
 
 // txt: text of a heading, item, quote, cell or plain run: safe words, or (feature md) hostile words.
@@ -267,7 +327,12 @@ func (g *gctx) block(i int) Block {
 	if g.f["empty"] {
 		kinds = append(kinds, "empty", "empty", "empty")
 	}
-	k := rapid.SampledFrom(kinds).Draw(t, "kind")
+	return g.block1(rapid.SampledFrom(kinds).Draw(t, "kind"))
+}
+
+// block1 draws a block of the given kind.
+func (g *gctx) block1(k string) Block {
+	t := g.t
 	if g.f["blanktext"] && oneIn(t, "blankt", 3) {
 		// a block of any kind without visible text: nothing of it can appear in the Markdown
 		bt := rapid.SampledFrom([]string{"", " ", "\t", "  ", "\u00a0", "\n"}).Draw(t, "blanktt")
@@ -310,7 +375,9 @@ func (g *gctx) block(i int) Block {
 	case "li":
 		return Block{K: "li", Ord: rapid.IntRange(0, 2).Draw(t, "ord") == 0, T: g.txt("lt", 1, 3)}
 	case "code":
-		switch c := rapid.IntRange(0, 5).Draw(t, "codek"); {
+		switch c := rapid.IntRange(0, 6).Draw(t, "codek"); {
+		case c == 6:
+			return Block{K: "code", T: g.multiLine()}
 		case g.f["md"] && c <= 1:
 			return Block{K: "code", T: rapid.SampledFrom(fenceLines).Draw(t, "cf")}
 		case g.f["md"] && c == 2:
@@ -490,12 +557,22 @@ func fixedCases() []Case {
 		{Mode: "fixed", Blocks: []Block{{K: "p", Runs: []Run{{T: "before "}, {T: "both", B: true, I: true}}}, {K: "table", Cells: [][]string{{"h1", "h2"}, {"c", "d"}}},
 			{K: "li", T: "item"}, {K: "code", T: "a*b + c_d"}, {K: "code", T: "# not a heading"}, {K: "empty"}, {K: "h", Level: 7, T: "deep"}, {K: "p", Runs: []Run{{T: "after"}}}},
 			O: Opts{GFM: true, Bullet: "*", Emph: "*", MaxLen: 80, Meta: true}},
+		// pieces of code: one CodeBlock paragraph per line, paragraphs without visible text of every kind between the lines (empty
+		// lines of the code), before the first and after the last line (nothing); lines without text, of blanks, with
+		// indentation; a text of several lines (LF, CR LF, an empty line, a trailing line end); a quote, a table and an item
+		// between two pieces; items of both kinds next to each other and around a paragraph without text
+		{Mode: "fixed", Blocks: []Block{{K: "p", Runs: []Run{{T: "intro"}}}, {K: "empty"}, {K: "code", T: "func f() {"}, {K: "code", T: "\treturn 1"}, {K: "empty"}, {K: "h", Level: 3, T: " "},
+			{K: "code", T: "}"}, {K: "code", T: ""}, {K: "code", T: "    "}, {K: "code", T: "  g()"}, {K: "empty", Brk: true}, {K: "q", T: "between"}, {K: "code", T: "one\r\ntwo\n\n  four\n"},
+			{K: "table", Cells: [][]string{{"k", "v"}}, HdrBold: true}, {K: "code", T: ""}, {K: "p", Runs: []Run{{T: " "}}}, {K: "code", T: "after the table"}, {K: "li", T: ""}, {K: "li", T: "item"},
+			{K: "code", T: "last"}, {K: "li", T: "bullet"}, {K: "li", T: "numbered", Ord: true}, {K: "li", T: "second", Ord: true}, {K: "p", Runs: []Run{{T: "end"}}}}, O: def},
+		{Mode: "fixed", Blocks: []Block{{K: "code", T: " "}, {K: "empty"}, {K: "code", T: ""}, {K: "h", Level: 1, T: "Only blank code before"}, {K: "code", T: "x"}, {K: "empty"}, {K: "empty"}, {K: "code", T: "y"},
+			{K: "empty"}, {K: "code", T: "\t"}, {K: "empty"}}, O: Opts{GFM: true, Setext: true, Bullet: "+", Emph: "_", Wrap: true, MaxLen: 10}, W: &Wide{X: &Extra{Lang: "go"}}},
 		{Mode: "fixed", Blocks: hostileDoc(true), O: def},
 		{Mode: "fixed", Blocks: hostileDoc(false), O: Opts{GFM: true, Setext: true, Bullet: "*", Emph: "_", Wrap: true, MaxLen: 10}},
 		{Mode: "fixed", Blocks: hostileDoc(false), O: Opts{GFM: true, Setext: true, Bullet: "+", Emph: "*", Wrap: true, MaxLen: 1}},
 	}
 	if os.Getenv("C20_NOHOSTILEDOC") != "" { // development aid: sensitivity of the generated search alone
-		cs = cs[:4]
+		cs = cs[:6]
 	}
 	if os.Getenv("C20_NOWIDEFIXED") == "" {
 		cs = append(cs, wideFixed()...)
